@@ -21,3 +21,9 @@ check("C15",
       text="Explicit-state search to a fix-point: every history of tagged writes (tags in arbitrary arrival order), tag-bounded reads through an instruction's Run, plain reads, Commit/Rollback(tag) (+RATFlush, ring wrap-around) on both the transaction-map and the rename-table path of risc.Context (2 registers x up to 2 uncommitted writes, 1 register x up to 3/4), and every history on comp.RAT with ring 2..4, against a per-register (tag, value) list model; each edge compares returned values and the architectural values of all registers. The statement's own limit (tag-bounded reads/rollback only while writes <= slots) is part of the oracle.",
       note="Values are fresh integers and opaque to the implementation, so the canonical state keeps only the per-register sequence of uncommitted tags. 'Youngest' = highest tag. Known finding KF-C15-1 lists the exact failing histories (all in states with out-of-order arrivals).",
       ref="DESIGN.md §2 C15")
+
+check("C02",
+      technique="exhaustive enumeration of operand lattice x register shapes x immediates against an independent RV32IM table",
+      text="Input-space enumeration: each of the 45 mnemonics is parsed from text and its Run/MemoryRead/MemoryWrite/declared register sets are compared with an independent uint32-arithmetic RV32IM table for ALL pairs of a boundary lattice (33 values quick, ~300 thorough), all register shapes incl. zero and rd==rs / rs1==rs2 aliases, 14 immediates, all 256 bytes for lb, all 65536 half-words for lh, 6^4 words for lw, 3 pcs for link instructions, with poison flipped in unread registers (dynamic non-interference) and a check that Run changes no register behind its Execution result.",
+      note="Exhaustive over the lattice, not over all 2^64 operand pairs (stated in the evidence). The table is the trusted specification. div/rem by zero are owned by C07.",
+      ref="DESIGN.md §2 C02")
